@@ -4,77 +4,96 @@
                            derived by harness/py/c01_describe.py inside the implementation's interpreter
                            (construct objects walked; struct-based classes probed)
   Generated/CodecConsts.v  the constants of Timestamp.pack/unpack and TimestampAdapter (sentinel, 1e-9, 1e9, carry
-                           threshold), after checking that the four function bodies still have the statements
-                           Models/CodecTs.v and Models/TimestampF.v transcribe (fail closed otherwise)
+                           threshold), obtained by evaluating the working tree (attribute read + probing), after
+                           confirming on a probe set that the behaviour has the shape Models/CodecTs.v and
+                           Models/TimestampF.v transcribe (fail closed otherwise)
   build/c01/descriptions.json  the same descriptions with attribute paths, for the correspondence run
 
 Fail closed: a class the description language cannot express is *listed* (it is then covered by the law
 evaluation only); an error in the back end, or Timestamp code that no longer matches, raises.
 """
-import ast, json, os, struct, subprocess, sys
+import json, os, struct, subprocess, sys
 sys.path.insert(0, os.path.join(os.path.dirname(os.path.abspath(__file__)), '..', 'lib'))
 import vf
 
 DESCRIBE = os.path.join(vf.VERIF, 'harness/py/c01_describe.py')
 TS_SRC = 'python/fusion_engine_client/messages/timestamp.py'
 
-EXPECT = {
-    ('Timestamp', 'pack'): [
-        'if math.isnan(self.seconds):\n    int_part = Timestamp._INVALID\n    frac_part_ns = Timestamp._INVALID\nelse:\n    int_part = int(self.seconds)\n'
-        '    frac_part_ns = int(round((self.seconds - int_part) * {ENC}))\n    if frac_part_ns >= {CARRY}:\n        int_part += 1\n        frac_part_ns -= {CARRY}',
-        'if buffer is None:\n    buffer = struct.pack(Timestamp._FORMAT, int_part, frac_part_ns)\nelse:\n    args = (int_part, frac_part_ns)\n'
-        '    struct.pack_into(Timestamp._FORMAT, buffer, offset, *args)',
-        'if return_buffer:\n    return buffer\nelse:\n    return self.calcsize()'],
-    ('Timestamp', 'unpack'): [
-        'int_part, frac_part_ns = struct.unpack_from(Timestamp._FORMAT, buffer, offset)',
-        'if int_part == Timestamp._INVALID or frac_part_ns == Timestamp._INVALID:\n    self.seconds = math.nan\nelse:\n    self.seconds = int_part + frac_part_ns * {DEC}',
-        'return Timestamp._SIZE'],
-    ('TimestampAdapter', '_decode'): [
-        'if obj.int_part == Timestamp._INVALID or obj.frac_part_ns == Timestamp._INVALID:\n    seconds = math.nan\nelse:\n    seconds = obj.int_part + obj.frac_part_ns * {DEC}',
-        'return Timestamp(seconds)'],
-    ('TimestampAdapter', '_encode'): [
-        'if math.isnan(obj.seconds):\n    int_part = Timestamp._INVALID\n    frac_part_ns = Timestamp._INVALID\nelse:\n    int_part = int(obj.seconds)\n'
-        '    frac_part_ns = int(round((obj.seconds - int_part) * {ENC}))\n    if frac_part_ns >= {CARRY}:\n        int_part += 1\n        frac_part_ns -= {CARRY}',
-        "return {'int_part': int_part, 'frac_part_ns': frac_part_ns}"],
-}
+def _bits(x):
+    return struct.unpack('<Q', struct.pack('<d', x))[0]
 
 
-def _consts_of(node, kinds):
-    return [n.value for n in ast.walk(node) if isinstance(n, ast.Constant) and isinstance(n.value, kinds) and not isinstance(n.value, bool)]
+def _float(b):
+    return struct.unpack('<d', struct.pack('<Q', b))[0]
+
+
+def _model_dec(sec, ns, inv, c):
+    """the computation Models/CodecTs.v / TimestampF.v transcribe: NaN on a sentinel field, else sec + ns * c"""
+    if sec == inv or ns == inv:
+        return None
+    return _bits(sec + (ns * c))
+
+
+def _model_enc(bits, inv, k, carry):
+    """NaN -> sentinel pair; else int part, fraction * k rounded to nearest (ties to even), carry at `carry`; struct range errors"""
+    if bits is None:
+        return [inv, inv]
+    x = _float(bits)
+    try:
+        ip = int(x)
+        fr = int(round((x - ip) * k))
+    except (OverflowError, ValueError):
+        return 'raise'
+    if fr >= carry:
+        ip += 1; fr -= carry
+    if not (0 <= ip < (1 << 32) and 0 <= fr < (1 << 32)):
+        return 'raise'
+    return [ip, fr]
 
 
 def timestamp_consts():
-    tree = ast.parse(vf.repo_file(TS_SRC))
-    got, inv, fmt = {}, None, None
-    for node in tree.body:
-        if isinstance(node, ast.ClassDef) and node.name in ('Timestamp', 'TimestampAdapter'):
-            for f in node.body:
-                if isinstance(f, ast.FunctionDef) and (node.name, f.name) in EXPECT:
-                    body = [s for s in f.body if not (isinstance(s, ast.Expr) and isinstance(s.value, ast.Constant))]   # drop docstrings/comments
-                    got[(node.name, f.name)] = body
-                if node.name == 'Timestamp' and isinstance(f, ast.Assign) and len(f.targets) == 1 and isinstance(f.targets[0], ast.Name):
-                    if f.targets[0].id == '_INVALID':
-                        inv = ast.literal_eval(f.value)
-                    if f.targets[0].id == '_FORMAT':
-                        fmt = ast.literal_eval(f.value)
-    if set(got) != set(EXPECT) or inv is None or fmt != '<II':
-        raise RuntimeError('gen_c01: Timestamp / TimestampAdapter functions not found as expected (format %r, invalid %r, found %r)' % (fmt, inv, sorted(got)))
-    # constants: the float factors and the integer carry threshold
-    floats_dec = set(_consts_of(got[('Timestamp', 'unpack')][1], float)) | set(_consts_of(got[('TimestampAdapter', '_decode')][0], float))
-    floats_enc = set(_consts_of(got[('Timestamp', 'pack')][0], float)) | set(_consts_of(got[('TimestampAdapter', '_encode')][0], float))
-    ints_enc = set(x for x in _consts_of(got[('Timestamp', 'pack')][0], int) if x > 1) | set(x for x in _consts_of(got[('TimestampAdapter', '_encode')][0], int) if x > 1)
-    if len(floats_dec) != 1 or len(floats_enc) != 1 or len(ints_enc) != 1:
-        raise RuntimeError('gen_c01: Timestamp constants not unique: %r %r %r' % (floats_dec, floats_enc, ints_enc))
-    dec, enc, carry = floats_dec.pop(), floats_enc.pop(), ints_enc.pop()
-    for key, want in EXPECT.items():
-        have = [ast.unparse(s) for s in got[key]]
-        want = [w.replace('{DEC}', repr(dec)).replace('{ENC}', repr(enc)).replace('{CARRY}', repr(carry)) for w in want]
-        if have != want:
-            raise RuntimeError('gen_c01: %s.%s no longer has the statements the timestamp models transcribe:\n--- source\n%s\n--- expected\n%s'
-                               % (key[0], key[1], '\n'.join(have), '\n'.join(want)))
-    bits = lambda x: struct.unpack('<Q', struct.pack('<d', x))[0]
-    return {'ts_invalid': inv, 'ts_dec_factor_bits': bits(dec), 'ts_enc_factor_bits': bits(enc), 'ts_carry_at': carry,
-            'dec_factor': dec, 'enc_factor': enc}
+    """The constants of Timestamp.pack/unpack and TimestampAdapter, obtained by EVALUATING the working tree (no source
+    text is matched): the sentinel is read and confirmed by probing, the decode factor is what unpack makes of
+    (0 s, 1 ns), and the shape the models transcribe (sec + ns * c; int part, fraction * 1e9 rounded to nearest-even,
+    carry at 10^9; struct range errors) is confirmed on a probe set.  Fail closed only if the behaviour is not of
+    that shape."""
+    import random
+    r = random.Random(12345)
+    dec_probe = [(0, 1), (0, 0), (1, 0), (0, 999999999), (529378, 273878287), (4294967294, 999999999), (7, 4294967294), (123, 1000000000)]
+    dec_probe += [(r.randrange(1 << 32), r.randrange(1 << 32)) for _ in range(40)] + [(r.randrange(1 << 31), r.randrange(10 ** 9)) for _ in range(60)]
+    dec_probe += [(0xFFFFFFFF, 5), (5, 0xFFFFFFFF), (0xFFFFFFFF, 0xFFFFFFFF)]
+    enc_probe = [None] + [_bits(x) for x in (0.0, 1.0, 1.5e-9, 2.5e-9, 3.5e-9, 0.5e-9, 0.9999999996, 0.9999999994, 1.9999999999, 529378.273878287, 1e9 + 0.123456789,
+                                            4294967294.5, 4294967295.0, 4294967295.9999995, 4294967296.0, 1e12, -1.0, -0.25, 8388607.999999999, 16777216.000000004,
+                                            float('inf'))]
+    enc_probe += [_bits(r.uniform(0, 2 ** e)) for e in range(1, 33) for _ in range(3)]
+    p = subprocess.run([vf.PY, os.path.join(vf.VERIF, 'harness/py/c01_laws.py'), 'tsprobe'], input=json.dumps({'dec': dec_probe, 'enc': enc_probe}),
+                       capture_output=True, text=True, timeout=300, env=vf.IMPL_ENV)
+    lines = [l for l in p.stdout.split('\n') if l.startswith('{')]
+    if p.returncode != 0 or not lines:
+        raise RuntimeError('gen_c01: timestamp probe failed (rc=%s): %s' % (p.returncode, p.stderr[-1500:]))
+    out = json.loads(lines[-1])
+    if out['size'] != 8:
+        raise RuntimeError('gen_c01: a serialized Timestamp is %d bytes, the models assume two 32-bit fields' % out['size'])
+    c_bits = out['dec'][0][0]
+    if c_bits is None or out['dec'][0][1] != c_bits:
+        raise RuntimeError('gen_c01: unpack of (0 s, 1 ns) gives %r / %r' % tuple(out['dec'][0]))
+    c = _float(c_bits)
+    inv = out['invalid_attr']
+    if not (0 < inv < (1 << 32)) or out['dec'][-1] != [None, None] or out['dec'][-2] != [None, None] or out['dec'][-3] != [None, None]:
+        raise RuntimeError('gen_c01: sentinel %r is not confirmed by unpack' % inv)
+    for (sec, ns), (a, b) in zip(dec_probe, out['dec']):
+        want = _model_dec(sec, ns, inv, c)
+        if a != want or b != want:
+            raise RuntimeError('gen_c01: Timestamp unpack is not of the modelled shape sec + ns * %r: (%d, %d) -> %r / %r, model %r' % (c, sec, ns, a, b, want))
+    k, carry = 1e9, 10 ** 9
+    for bits, (a, b) in zip(enc_probe, out['enc']):
+        want = _model_enc(bits, inv, k, carry)
+        got_a = 'raise' if isinstance(a, str) else a
+        got_b = 'raise' if isinstance(b, str) else b
+        if got_a != want or got_b != want:
+            raise RuntimeError('gen_c01: Timestamp pack is not of the modelled shape (int part; round((x - int) * 1e9) to nearest-even; carry at 10^9): '
+                               '%r -> %r / %r, model %r' % (None if bits is None else _float(bits), a, b, want))
+    return {'ts_invalid': inv, 'ts_dec_factor_bits': c_bits, 'ts_enc_factor_bits': _bits(k), 'ts_carry_at': carry, 'dec_factor': c, 'enc_factor': k}
 
 
 def run_describe():
